@@ -66,12 +66,26 @@ def decode_table(prog, dec):
         t = b.get('term')
         if not t or 'cond' not in t or t['k'] != 'if':
             continue
-        bo = dec.binop(t['cond'])
-        if not bo or bo[0] != '==':
-            continue
-        name = _enum_name(dec, bo[2]) or _enum_name(dec, bo[1])
-        other = dec.fmt(bo[1], inline=False) + dec.fmt(bo[2], inline=False)
-        if not name or 'a_type' not in other:
+        # the arm condition is one "a_type == X" or a disjunction of them (aliases sharing one arm)
+        def disjuncts(nid):
+            bo_ = dec.binop(dec.skip(nid))
+            if bo_ and bo_[0] == '||':
+                return disjuncts(bo_[1]) + disjuncts(bo_[2])
+            return [nid]
+        names = []
+        for dj in disjuncts(t['cond']):
+            bo = dec.binop(dec.skip(dj))
+            if not bo or bo[0] != '==':
+                names = []
+                break
+            nm = _enum_name(dec, bo[2]) or _enum_name(dec, bo[1])
+            other = dec.fmt(bo[1], inline=False) + dec.fmt(bo[2], inline=False)
+            if 'a_type' not in other:
+                names = []
+                break
+            if nm:
+                names.append(nm)      # a disjunct comparing with a bare number is an alias code without enumerator
+        if not names:
             continue
         arm = b['succs'][0]
         # first length test inside the arm
@@ -88,7 +102,8 @@ def decode_table(prog, dec):
         txt = ' '.join(dec.fmt(e, inline=False) for e in dec.blocks[arm]['elems'] if dec.nodes[e]['k'] == 'call')
         if ln is None and 'decodeAddress' in txt:
             ln, op = 'addr', 'fn'
-        out[name] = {'len': ln, 'op': op, 'arm': arm, 'cond': t['cond'], 'block': b['id']}
+        for name in names:
+            out[name] = {'len': ln, 'op': op, 'arm': arm, 'cond': t['cond'], 'block': b['id']}
     return out
 
 
